@@ -88,6 +88,11 @@ func (e *Env) DeliverWith(ctx sdk.Context, txLabel string, h Handler, msgs ...sd
 // DeliverBytes is DeliverWith with explicit transaction bytes; nil models a message executed outside a
 // transaction (e.g. by a passed governance proposal in an end-blocker), where ctx.TxBytes() is empty.
 func (e *Env) DeliverBytes(ctx sdk.Context, txb []byte, h Handler, msgs ...sdk.Msg) (out Outcome) {
+	if e.Trace != nil {
+		defer func() {
+			e.Trace.Steps = append(e.Trace.Steps, TraceStep{Kind: "tx", Label: fmt.Sprintf("%x", txb), Msgs: msgs, OK: out.OK, Custom: h != nil || txb == nil})
+		}()
+	}
 	txCtx := ctx.WithTxBytes(txb).
 		WithGasMeter(storetypes.NewInfiniteGasMeter()).
 		WithEventManager(sdk.NewEventManager())
@@ -199,6 +204,10 @@ func (e *Env) EndBlockOnly(ctx sdk.Context) BlockOutcome {
 	em := sdk.NewEventManager()
 	e.runBlockers(ctx.WithEventManager(em).WithTxBytes(nil), false, &bo)
 	bo.Events = em.Events()
+	if e.Trace != nil {
+		d, b := e.Trace.snapshot(e, ctx)
+		e.Trace.Steps = append(e.Trace.Steps, TraceStep{Kind: "block", Height: ctx.BlockHeight(), Time: ctx.BlockTime(), EndDump: d, Bank: b})
+	}
 	return bo
 }
 
